@@ -48,10 +48,10 @@ def replay_verbs(inputs, obl):
         if g != want:
             problems.append(f"{src} -> {g!r}, the reference prescribes {want!r}")
     # grids against independent oracles written from the reference sentences (plus the solver's own count/size when it gave one)
-    def lit(v):
+    def lit(v, inside=False):
         if isinstance(v, list):
-            return '[' + ' '.join(lit(x) for x in v) + ']'
-        return f"({v})" if isinstance(v, int) and v < 0 else str(v)
+            return '[' + ' '.join(lit(x, True) for x in v) + ']'
+        return f"({v})" if isinstance(v, int) and v < 0 and not inside else str(v)
 
     def norm(g):
         g = g.tolist() if hasattr(g, 'tolist') else g
@@ -125,6 +125,22 @@ def replay_verbs(inputs, obl):
         seq = [('shp:^!10', [[0, 1, 2, 3, 4], [5, 6, 7, 8, 9]]), ('shp:^!8', [[0, 1, 2, 3], [4, 5, 6, 7]]), ('shp', [2, -1]),
                ('rf::{[-1 2]:^x};rf(!10)', [[0, 1], [2, 3], [4, 5], [6, 7], [8, 9]]), ('rf(!6)', [[0, 1], [2, 3], [4, 5]])]
         grid.extend(seq)
+    if tok is None or any(w in obl for w in ('range', 'group', 'first')):
+        # Range: the distinct members in order of FIRST APPEARANCE; Group: the positions of each distinct member, groups in order of
+        # first appearance (reference example: ="hello foo" --> [[0] [1] [2 3] [4 7 8] [5] [6]]); First of a string is a CHARACTER
+        import itertools as _it
+        seqs = [[3, 1, 3, 2], [2, 2, 1], [5], [1, 2, 3], [9, 8, 9, 8, 7], [0, -1, 0]]
+        strs = ['hello', 'hello foo', 'abacabc', 'zyx', 'a', 'mississippi']
+        for b in seqs:
+            uniq = list(dict.fromkeys(b))
+            grid.append((f"?{lit(b)}", uniq))
+            grid.append((f"={lit(b)}", [[i for i, v in enumerate(b) if v == u] for u in uniq]))
+            grid.append((f"*{lit(b)}", b[0]))
+        for t in strs:
+            uniq = list(dict.fromkeys(t))
+            grid.append((f'?"{t}"', ''.join(uniq)))
+            grid.append((f'="{t}"', [[i for i, v in enumerate(t) if v == u] for u in uniq]))
+            grid.append((f'#*"{t}"', ord(t[0])))            # the size of a CHARACTER is its code; of a one-character string it is 1
     for src, want in grid:
         try:
             got = norm(k(src))
